@@ -14,6 +14,16 @@ CHECKS = {
          "histories of collective/independent/nonblocking record writes with syncs, redefinitions and delays on 2-6 ranks; the unlimited dimension length is read on every rank after every step", "4 C05"),
  "C08": ("exploration", "runtime monitoring: PMPI shim records the per-rank sequence of MPI collectives inside each API call; sequences compared across ranks",
          "every rank of a collective put/get plays a role (valid, zero-length, six kinds of invalid argument); all role pairs enumerated on 2 ranks; safe mode, aggregation and delays varied", "4 C08"),
+ "C06": ("exploration", "runtime monitoring: data model + independent decode after every redefinition; file hash around aborted redefinitions",
+         "completely filled base layouts, 1-4 redefinitions (attributes small..70 KB, new fixed/record variables, alignment/minfree), every element re-read on every rank after each enddef and decoded from the raw file; aborts compared by file hash", "4 C06"),
+ "C10": ("exploration", "runtime monitoring: differential execution of one global program under K configurations + data model + logical dump",
+         "decomposition-independent programs rendered under random hint/process-count/mode configurations; read buffers, return codes and the logical dump of the final files must agree; reported alignment hints checked against real offsets", "4 C10"),
+ "C12": ("exploration", "runtime monitoring: differential run burst-buffer driver vs default driver + data model + log-directory listing",
+         "random put/iput/get programs executed under nc_burst_buf=enable (various flush-buffer sizes, shared logs, retention) and under the default driver; own-write reads, visibility after flush points, record counts, final logical dump and log clean-up checked", "4 C12"),
+ "C13": ("exploration", "runtime monitoring: pristine-copy comparison of every write buffer, sentinel+guard zones on read buffers, attached-buffer ledger",
+         "histories of attach/bput/iput/iget/wait/cancel/detach across the in-place-swap threshold and swap hints; buffers compared byte-for-byte after every completing call; inq_buffer_usage against pending-bytes ledger; NC_EINSUFFBUF probes", "4 C13"),
+ "C16": ("exploration", "runtime monitoring: fill-aware data model (mask = written or filled) + independent decode",
+         "random fill settings (set_fill, def_var_fill, _FillValue), partial writes, redefinitions adding filled/unfilled variables over existing records, fill_var_rec; every variable re-read on every rank after each step", "4 C16"),
  "C11": ("fault_enumeration", "fault enumeration: PMPI shim fails every MPI-IO data-transfer call (rank x ordinal x error class) of 12 programs",
          "complete enumeration of single MPI-IO faults over the listed programs on 2 ranks; oracle: enclosing call returns an error on the faulted rank and all ranks return", "4 C11"),
 }
